@@ -52,7 +52,10 @@ LayoutChoices(f) ==
                     unclustered |-> u, type_unknown |-> 0] :
                      a \in Bool, b \in Bool, l \in 0..2, m \in Bool, i \in {"none", "gzip"}, u \in Bool }
            [] f = "mbtiles" -> { [as_view |-> a, extra_metadata |-> b, without_index |-> c] : a \in Bool, b \in Bool, c \in Bool }
-           [] f = "tar" -> { [dot_prefix |-> a, dir_members |-> b, ustar |-> c, reverse |-> d] : a \in Bool, b \in Bool, c \in Bool, d \in Bool }
+           \* member order: sorted, reversed, or INTERLEAVED (the levels take turns: a level comes back after another one, as in an
+           \* archive that was appended to)
+           [] f = "tar" -> { [dot_prefix |-> a, dir_members |-> b, ustar |-> c, reverse |-> d, interleave |-> 0] : a \in Bool, b \in Bool, c \in Bool, d \in Bool }
+                           \cup { [dot_prefix |-> a, dir_members |-> b, ustar |-> c, reverse |-> 0, interleave |-> 1] : a \in Bool, b \in Bool, c \in Bool }
            [] OTHER -> { [extra_files |-> a] : a \in Bool }
 
 TilesOfU(Uv, a) == \* sequence of <<z,x,y,p>> in universe order for the coordinates that have a payload
